@@ -99,6 +99,14 @@ func (w *RefreshWorker) refreshInALoop(ctx context.Context) {
 		case <-w.done:
 			return
 		case <-w.clock.After(waitDur):
+			// If both channels are ready, select chooses one at random, so
+			// make sure that there are no refreshes after a shutdown.
+			select {
+			case <-w.done:
+				return
+			default:
+			}
+
 			err := w.refresh(ctx)
 			if err != nil {
 				w.errHdlr.Handle(ctx, err)
